@@ -439,6 +439,7 @@ def correspond(ctx):
                 ask(["py-repr", C.hexs(case["alias"]), d, tol, val], ("repr", sub, real_repr, type(x).__name__))
                 ask(["py-eval", C.hexs(case["alias"]), d, tol, val], ("eval", sub, C.parse_sx(C.sx(to_val(y))), type(x).__name__))
     ctx.notes["engines_with_all_variants"] = n_full
+    probes(ctx)
     outs = ctx.driver.eval(lines)
     for (what, case, real, cname), o in zip(jobs, outs):
         st.validated += 1
@@ -466,6 +467,28 @@ def correspond(ctx):
         if len(mism) > 25:
             break
     return mism
+
+
+def probes(ctx):
+    """informational observations recorded for triage (DESIGN section 7 readings); never a verdict"""
+    notes = {}
+    with fl.settings.context(decimals=3, alias="fl"):
+        r = fl.Rule.create("if a is b then c is d")
+        r.enabled = False
+        notes["rule_enabled_flag_is_not_carried"] = eval(repr(r), namespace()).enabled is True  # noqa: S307
+        v = fl.InputVariable("a", minimum=0, maximum=1, terms=[fl.Triangle("t", 0, 1, 2)])
+        notes["int_parameters_repr"] = repr(v)
+        notes["int_parameters_repr_is_fixed_point"] = repr(eval(repr(v), namespace())) == repr(v)  # noqa: S307
+        c = fl.Constant("c", 0.5)
+        c.height = 0.5
+        notes["constant_height_attribute_is_not_carried"] = eval(repr(c), namespace()).height == 1.0  # noqa: S307
+        e = fl.Engine("None")
+        try:
+            exec(fl.PythonExporter(formatted=False, encapsulated=True).to_string(e), {})  # noqa: S102
+            notes["engine_named_like_a_keyword"] = "executes"
+        except Exception as ex:  # noqa: BLE001
+            notes["engine_named_like_a_keyword"] = f"engine named 'None' -> class None: {type(ex).__name__}"
+    ctx.notes["probes"] = notes
 
 
 def shrink(case):
